@@ -145,11 +145,11 @@ func (f *freshnessCalculator) CalculateFreshness(
 
 	// Freshness lifetime (private cache: ignore s-maxage)
 	usefulLife := time.Duration(0)
-	if maxAge, ok := resCC.MaxAge(); ok && maxAge >= 0 {
-		usefulLife = maxAge // Response is fresh for max-age seconds
-	}
-
-	if usefulLife == 0 {
+	if maxAge, ok := resCC.MaxAge(); ok {
+		// Response is fresh for max-age seconds; max-age=0 means "already
+		// stale" and takes precedence over Expires and heuristics.
+		usefulLife = maxAge
+	} else {
 		expires, found, valid := entry.ExpiresHeader()
 		switch {
 		case valid && expires.After(date):
